@@ -3,6 +3,7 @@ EXTENDS Atlas, AtlasParams, TLC, Json
 Init == /\ n \in 1..MaxHosts /\ auth \in AAuth /\ cli \in ACli
         /\ fault \in [at : 0..MaxHosts, kind : AKinds]
         /\ (auth # "digest" => fault.kind \in {"none"} \cup ReqFaults)     \* file faults are explored with the ordinary server
+        /\ (fault.kind = "notmp" => fault.at = 1)                          \* the temp directory is one for the whole run: the first download meets it
         /\ keyOk \in BOOLEAN /\ (~keyOk => cli /\ fault.kind = "none" /\ auth = "digest")
         /\ AtlasInit
 Spec == Init /\ [][AtlasNext]_vars /\ WF_vars(AtlasNext)
